@@ -1326,6 +1326,41 @@ def leg_malformed(ctx, rng):
     _ = rng
 
 
+def leg_malformed_grid(ctx, spec, rng):
+    """malformed requests against a random valid grid: expected outcome is an error class"""
+    from pde.grids.base import DimensionError
+    g = build(spec)
+    k, d = len(spec["shape"]), dim_of(spec)
+    m = rng.choice([1, 3])
+    wrong = lambda n: np.zeros((m, n)) if m > 1 else np.zeros(n)
+    minL = min(float(hi - lo) for lo, hi in spec_bounds(spec))
+    table = [
+        ("transform cartesian wrong dim", lambda: g.transform(wrong(d + 1), "cartesian", rng.choice(["grid", "cell"])), DimensionError),
+        ("transform grid wrong dim", lambda: g.transform(wrong(k + 1), "grid", rng.choice(["cartesian", "cell"])), DimensionError),
+        ("transform cell wrong dim", lambda: g.transform(wrong(k + 1), "cell", rng.choice(["cartesian", "grid"])), DimensionError),
+        ("normalize wrong dim", lambda: g.normalize_point(wrong(k + 1), reflect=rng.random() < 0.5), DimensionError),
+        ("contains wrong dim", lambda: g.contains_point(wrong(d + 1)), DimensionError),
+        ("distance wrong dim", lambda: g.distance(wrong(k + 1), wrong(k + 1)), DimensionError),
+        ("random point too close", lambda: g.get_random_point(boundary_distance=0.5 * minL, avoid_center=True)
+         if spec["cls"] not in ("unit", "cartesian") else g.get_random_point(boundary_distance=0.5 * minL), RuntimeError),
+        # (integrate does not validate the data shape on grids whose cell volumes are all scalars: data of
+        #  shape N+1 is summed silently - observation, outside the property, see notes/C12.md)
+        ("integrate axis out of range", lambda: g.integrate(np.zeros(spec["shape"]), axes=[k]), ValueError),
+    ]
+    name, fn, exc = rng.choice(table)
+    case = {"leg": "malformed", "what": name, "grid": spec, "batch": m}
+    ctx.count(case, nontrivial=False, leg="malformed")
+    ctx.hist("malformed", f"{name} -> {exc.__name__}")
+    ctx.monitor_evals += 1
+    try:
+        r = fn()
+        got = f"returned {r!r}"[:200]
+    except Exception as e:  # noqa: BLE001
+        got = type(e)
+    if not (isinstance(got, type) and issubclass(got, exc)):
+        ctx.disagree("malformed", case, exc.__name__, str(got), "expected error class")
+
+
 # ------------------------------------------------------------------------------------------
 # leg: coordinate maps with angles
 def leg_coordmaps(ctx, P, rng, n):
@@ -1406,7 +1441,7 @@ REGRESSION_GRIDS = [
 def run(ctx):
     rng = ctx.rng
     P = Pending(ctx)
-    n_grids = ctx.budget(700, 16000)
+    n_grids = ctx.budget(1500, 40000)
     # fixed regression cases (always run, all legs)
     for spec, rc, rp1, rp2, rint in REGRESSION_GRIDS:
         ctx.hist("stream", "regression")
@@ -1428,7 +1463,7 @@ def run(ctx):
         ctx.hist("grid-class", f"{cls}/{len(spec['shape'])}axes/{mode}")
         ctx.hist("cells", "x".join(str(n) for n in spec["shape"]))
         all_legs(ctx, P, spec, rng, full=(i % 3 != 0))
-    _guard(ctx, "coordmaps", None, lambda: leg_coordmaps(ctx, P, rng, ctx.budget(400, 6000)))
+    _guard(ctx, "coordmaps", None, lambda: leg_coordmaps(ctx, P, rng, ctx.budget(600, 10000)))
     _guard(ctx, "malformed", None, lambda: leg_malformed(ctx, rng))
     P.run()
 
@@ -1468,6 +1503,7 @@ def all_legs(ctx, P, spec, rng, full=True):
     _guard(ctx, "normalize", spec, lambda: leg_normalize(ctx, P, spec, rng))
     _guard(ctx, "distance", spec, lambda: leg_distance(ctx, P, spec, rng))
     _guard(ctx, "random", spec, lambda: leg_random(ctx, P, spec, rng))
+    leg_malformed_grid(ctx, spec, rng)
     _ = full
 
 
